@@ -107,36 +107,39 @@ def check(ctx, rep):
     if sn is None:
         rep.fail("R06b", "slashnormalize", detail="slash normalisation routine not found")
     else:
+        # slashnormalize only looks at the length and at the first/last characters of its
+        # argument, so evaluating its body on every string over {"/", "a", "."} up to length 4
+        # covers every behaviour class (abstract evaluation by the walker, nothing is run)
+        import itertools
+
         param = sn.params[1] if len(sn.params) > 1 else "selector"
-        w = Walker(prog, ctx.resolver)
         problems = set()
-        for p in w.run(sn, pb):
-            if p.kind != "return":
-                problems.add("a path does not return a selector")
-                continue
-            lead = False
-            for e in p.events:
-                if e.kind == "assign" and e.target == param and isinstance(e.node, ast.Assign):
-                    v = e.node.value
-                    if isinstance(v, ast.BinOp) and isinstance(v.op, ast.Add) and isinstance(v.left, ast.Constant) \
-                            and isinstance(v.left.value, str) and v.left.value.startswith("/"):
-                        lead = True
-                    elif isinstance(v, ast.JoinedStr) and v.values and isinstance(v.values[0], ast.Constant) and str(v.values[0].value).startswith("/"):
-                        lead = True
+        n_cases = 0
+        for n in range(0, 5):
+            for tup in itertools.product("/a.", repeat=n):
+                arg = "".join(tup)
+                n_cases += 1
+                w = Walker(prog, ctx.resolver)
+                outs = set()
+                for p in w.run(sn, pb, env={param: Const(arg)}):
+                    if p.kind == "return" and p.value.kind == "const" and isinstance(p.value.value, str):
+                        outs.add(p.value.value)
                     else:
-                        lead = False  # e.g. a slice may leave the empty string
-                elif e.kind == "test" and e.extra is not None:
-                    t = norm(e.node)
-                    if (t == f"{param}[0] != '/'" and e.extra is False) or (t == f"{param}[0] == '/'" and e.extra is True) \
-                            or (t == f"{param}.startswith('/')" and e.extra is True) or (t == f"not {param}.startswith('/')" and e.extra is False):
-                        lead = True
-            ret = [e for e in p.events if e.kind == "return"][-1]
-            if not (ret.node.value is not None and norm(ret.node.value) == param and lead):
-                rv = ret.node.value
-                if not (isinstance(rv, ast.BinOp) and isinstance(rv.left, ast.Constant) and str(rv.left.value).startswith("/")):
-                    problems.add("a path can return a selector that does not start with '/' (e.g. the empty string)")
-        rep.add("R06b", f"{sn.qualname} yields a leading '/'", not problems, ctx.where(sn), "; ".join(sorted(problems)),
-                key="R06b|slashnormalize|" + ";".join(sorted(problems)))
+                        outs.add(None)
+                if len(outs) != 1 or None in outs:
+                    problems.add(f"result for {arg!r} is not determined by the code paths the analysis understands")
+                    continue
+                res = next(iter(outs))
+                if not res.startswith("/"):
+                    problems.add(f"slashnormalize({arg!r}) = {res!r} does not start with '/'")
+                if res.endswith("/") and res != "/" and "//" not in res:
+                    problems.add(f"slashnormalize({arg!r}) = {res!r} keeps a trailing slash the handlers do not expect "
+                                 "(children of such a directory selector contain '//', are refused, and the empty listing is cached)")
+                if arg and not arg.endswith("/") and arg.startswith("/") and res != arg:
+                    problems.add(f"slashnormalize({arg!r}) = {res!r} changes a selector that is already normal")
+        rep.extra["slashnormalize_cases"] = n_cases
+        rep.add("R06b", f"{sn.qualname}: leading '/', no stray trailing '/' ({n_cases} argument shapes)", not problems, ctx.where(sn),
+                "; ".join(sorted(problems)[:3]), key="R06b|slashnormalize|" + ";".join(sorted(p.split("=")[0] for p in problems)[:2]))
     for P in protos:
         for mname in ("__init__", "handle"):
             m = prog.resolve_method(P, mname)
